@@ -1,21 +1,26 @@
 """Symbolic tokens: a text is a sequence of tokens whose *identity* (which word of a bounded vocabulary, or an unknown
-word) is a solver variable.  Used by C16 to run the real rule / FLL state machines on all token sequences up to a length.
+word) is a solver variable.  Used by C16 to run the real rule / FLL state machines on all token sequences of a shape.
 
 How a symbolic token survives CPython's C-level string code
 -----------------------------------------------------------
 * `Tok` is a `str` subclass whose underlying value is a placeholder word (`QTK<i>KTQ`, letters and digits only, so the
-  library's regular expressions leave it alone).  `==`/`!=` against a word return a `SymBool` (the explorer forks on it),
-  `hash()` forks only on the few words that live in constant sets of the code under test (`(`, `)`, `,`) and is 0 otherwise.
+  library's regular expressions and `split`/`strip`/`find` leave it alone).  `==`/`!=` against a word return a `SymBool`
+  (the explorer forks on it); `hash()` forks only on the few words that live in constant sets of the code under test
+  (`(`, `)`, `,`, the four FLL block keywords) and is 0 otherwise.
+* `PH` is a `str` subclass for any longer text that contains placeholders (`QTK0KTQ: QTK1KTQ 0.5`): its
+  `split/strip/find/[...]` are the real `str` operations on the underlying characters, with every resulting piece
+  wrapped again (`wrap`): a piece that is exactly one placeholder becomes the `Tok` object itself.
+* whenever the real code glues pieces into a new string at C level (`" ".join(...)`, f-strings) the result is an ordinary
+  `str` that still contains the placeholders; the places where the code takes such a string apart again are wrapped to
+  re-symbolise it (`wrap`).  The harness lists these hooks as stubs.
 * every name a token is looked up against in a *hash* container is a `Key` (a `str` subclass with hash 0 that defers
   equality to the token): variable and term names of the engine, the rule keywords; the function / hedge / component
   factories get a `LinearDict` (a dict that answers get/in/[] by scanning its keys with `==`).  Same answers as the
   original containers for ordinary strings.
-* whenever the real code glues tokens into a new string (`" ".join(...)`, f-strings) the result is an ordinary `str`
-  containing the placeholders; the places where the code splits such a string again are re-symbolised
-  (`resym`): `SymText.split()` hands the same `Tok` objects back.  The hooks that do this are listed in `STUBS`.
 * soundness net: for every explored path the harness takes a model of the path condition, spells the text with real
-  words and runs the same entry point on the plain string (no `Tok` anywhere); outcome class and exported text must agree,
-  otherwise the run is a harness error (a string operation that silently used the placeholder would show up here).
+  words and runs the same entry point on the plain string and the plain library (no hooks, no `Tok` anywhere); outcome
+  class and exported text must agree, otherwise the run is a harness error (a string operation that silently used a
+  placeholder would show up here).
 """
 from __future__ import annotations
 
@@ -25,10 +30,10 @@ import z3
 
 from .core import S, SymBool, Unsupported
 
-PH = re.compile(r"QTK(\d+)KTQ")
+PHRE = re.compile(r"QTK(\d+)KTQ")
 
-# words that sit in constant (frozen)sets / plain dicts of the code under test: the hash of a token forks on these only
-HASH_WORDS = ("(", ")", ",")
+# words that sit in constant (frozen)sets of the code under test: the hash of a token forks on these only
+HASH_WORDS = ("(", ")", ",", "Engine", "InputVariable", "OutputVariable", "RuleBlock", "Automatic", "TakagiSugeno", "Tsukamoto")
 
 
 class Vocab:
@@ -41,6 +46,16 @@ class Vocab:
         self.index = {w: i for i, w in enumerate(self.words)}
         self.index[other] = len(self.words)
         self.n = len(self.words) + 1
+        self.floats, self.ints = {}, {}
+        for w in self.words + [other]:
+            try:
+                self.floats[w] = float(w)
+            except ValueError:
+                pass
+            try:
+                self.ints[w] = int(w)
+            except ValueError:
+                pass
 
     def idx(self, w):
         return self.index.get(w)
@@ -54,7 +69,7 @@ class Vocab:
 
 def _plain(s):
     """exact-str copy of any str (sub)instance"""
-    return str.__str__(s) if type(s) is str else "".join([s])
+    return s if type(s) is str else "".join([s])
 
 
 REGISTRY = {}      # placeholder -> Tok  (tokens are created once per obligation, outside the explored body)
@@ -62,6 +77,13 @@ REGISTRY = {}      # placeholder -> Tok  (tokens are created once per obligation
 
 def reset_registry():
     REGISTRY.clear()
+
+
+def _unsupported(name):
+    def f(self, *a, **k):
+        raise Unsupported(f"str.{name} on a symbolic text")
+    f.__name__ = name
+    return f
 
 
 class Tok(str):
@@ -79,6 +101,13 @@ class Tok(str):
         return t
 
     # ---- identity ---------------------------------------------------------------------------
+    def _is(self, j):
+        c = self._cache.get(j)
+        if c is None:
+            c = (self._const == j) if self._const is not None else SymBool(self.kind == j)
+            self._cache[j] = c
+        return c
+
     def _eq(self, o):
         if o is self:
             return True
@@ -93,28 +122,17 @@ class Tok(str):
             if c is None:
                 c = self._cache[("tok", o.i)] = SymBool(self.kind == o.kind)
             return c
-        if isinstance(o, SymText):
-            ts = o.toks
-            return self._eq(ts[0]) if len(ts) == 1 else False
+        if isinstance(o, PH):
+            return o._eq(self)
         if isinstance(o, str):
             w = _plain(o)
-            if PH.fullmatch(w):
-                return self._eq(REGISTRY[w])
+            if PHRE.search(w):
+                return wrap(w)._eq(self) if not PHRE.fullmatch(w) else self._eq(REGISTRY[w])
             j = self.vocab.idx(w)
             if j is None:
                 return False
             return self._is(j)
         return NotImplemented
-
-    def _is(self, j):
-        c = self._cache.get(j)
-        if c is None:
-            if self._const is not None:
-                c = self._const == j
-            else:
-                c = SymBool(self.kind == j)
-            self._cache[j] = c
-        return c
 
     def __eq__(self, o):
         return self._eq(o)
@@ -143,6 +161,14 @@ class Tok(str):
             c = self._cache[key] = SymBool(z3.Or(*[self.kind == j for j in js]) if js else z3.BoolVal(False))
         return c
 
+    def which(self, table):
+        """fork over the words of `table` (dict word -> value): the value of the word the token is, or KeyError"""
+        for w, v in table.items():
+            j = self.vocab.idx(w)
+            if j is not None and bool(self._is(j)):
+                return v
+        raise KeyError(self)
+
     # ---- string surface the parsers use -----------------------------------------------------
     def __bool__(self):
         return True
@@ -156,22 +182,19 @@ class Tok(str):
     lstrip = rstrip = strip
 
     def split(self, sep=None, maxsplit=-1):
-        if sep is None:
-            return [self]
-        raise Unsupported(f"Tok.split({sep!r})")
+        return [self]            # a word has no whitespace, ':' or '#' inside (assumption of the token model)
 
-    def _unsupported(name):  # noqa
-        def f(self, *a, **k):
-            raise Unsupported(f"str.{name} on a symbolic token")
-        f.__name__ = name
-        return f
+    def find(self, sub, *a):
+        if sub in ("#", ":", " ", "\n"):
+            return -1
+        raise Unsupported(f"Tok.find({sub!r})")
 
-    for _n in ("lower", "upper", "startswith", "endswith", "find", "rfind", "index", "replace", "isdigit", "isnumeric",
+    for _n in ("lower", "upper", "startswith", "endswith", "rfind", "index", "replace", "isdigit", "isnumeric",
                "isidentifier", "isalpha", "isalnum", "partition", "rpartition", "title", "capitalize", "casefold", "count",
                "__contains__", "__getitem__", "__iter__", "__lt__", "__le__", "__gt__", "__ge__", "__add__", "__radd__", "__mul__",
                "__mod__", "encode", "removeprefix", "removesuffix", "splitlines", "zfill", "center", "ljust", "rjust"):
         locals()[_n] = _unsupported(_n)
-    del _n, _unsupported
+    del _n
 
     def __repr__(self):
         return f"Tok({self.i})"
@@ -186,12 +209,157 @@ class Tok(str):
         raise Unsupported("pickling a symbolic token")
 
 
+class PH(str):
+    """a text with placeholders inside: real `str` operations on the characters, pieces wrapped again"""
+
+    def __new__(cls, raw):
+        return str.__new__(cls, _plain(raw))
+
+    @property
+    def toks(self):
+        return self.split()
+
+    def split(self, sep=None, maxsplit=-1):
+        if sep is not None:
+            sep = _plain(sep)
+        return [wrap(p) for p in str.split(self, sep, maxsplit)]
+
+    def strip(self, chars=None):
+        return wrap(str.strip(self, chars))
+
+    def lstrip(self, chars=None):
+        return wrap(str.lstrip(self, chars))
+
+    def rstrip(self, chars=None):
+        return wrap(str.rstrip(self, chars))
+
+    def find(self, sub, *a):
+        if PHRE.search(sub) or sub.isalnum():
+            raise Unsupported(f"PH.find({sub!r})")
+        return str.find(self, sub, *a)
+
+    def __contains__(self, sub):
+        if PHRE.search(sub) or sub.isalnum():
+            raise Unsupported(f"{sub!r} in <symbolic text>")
+        return str.__contains__(self, sub)
+
+    def __getitem__(self, i):
+        piece = str.__getitem__(self, i)
+        rest = PHRE.sub("", piece)
+        if "QTK" in rest or "KTQ" in rest:
+            raise Unsupported("a slice cuts through a symbolic token")
+        return wrap(piece)
+
+    def __add__(self, o):
+        return wrap(str.__add__(self, o))
+
+    def __radd__(self, o):
+        return wrap(str.__add__(_plain(o), self))
+
+    # ---- comparisons ------------------------------------------------------------------------
+    def _eq(self, o):
+        if o is self:
+            return True
+        if not isinstance(o, str):
+            return NotImplemented
+        a = self.split()
+        ow = wrap(_plain(o)) if not isinstance(o, (Tok, PH)) else o
+        b = ow.split() if isinstance(ow, (Tok, PH)) else _plain(ow).split()
+        if len(a) != len(b):
+            return False
+        if len(a) > 1 and _plain(self) != _plain(o):
+            # different texts of several tokens each: equality depends on the white space as well
+            sk = lambda s: PHRE.sub("\0", _plain(s))  # noqa: E731
+            if sk(self) != sk(o):
+                return False
+        r = True
+        for x, y in zip(a, b):
+            if isinstance(x, PH) or isinstance(y, PH):
+                # a word glued from several tokens (e.g. by Op.as_identifier on a name of two words) is a new word: it differs
+                # from every single word, and equals another glued word iff they are glued from the same tokens
+                gx, gy = PHRE.findall(_plain(x)), PHRE.findall(_plain(y))
+                if PHRE.sub("\0", _plain(x)) != PHRE.sub("\0", _plain(y)) or len(gx) != len(gy):
+                    return False
+                for i, j in zip(gx, gy):
+                    e = REGISTRY[f"QTK{i}KTQ"] == REGISTRY[f"QTK{j}KTQ"]
+                    if e is False:
+                        return False
+                    if e is not True:
+                        r = e if r is True else (r & e)
+                continue
+            e = (x == y) if isinstance(x, Tok) or isinstance(y, Tok) else (_plain(x) == _plain(y))
+            if e is False:
+                return False
+            if e is True:
+                continue
+            r = e if r is True else (r & e)
+        return r
+
+    def __eq__(self, o):
+        return self._eq(o)
+
+    def __ne__(self, o):
+        r = self._eq(o)
+        if r is NotImplemented:
+            return r
+        return (not r) if isinstance(r, bool) else ~r
+
+    def __hash__(self):
+        ts = self.split()
+        if len(ts) == 1 and isinstance(ts[0], Tok):
+            return hash(ts[0])
+        return 0
+
+    def __bool__(self):
+        return str.__len__(self) > 0
+
+    def __len__(self):
+        raise Unsupported("len() of a symbolic text")
+
+    for _n in ("lower", "upper", "startswith", "endswith", "rfind", "index", "replace", "isdigit", "isnumeric",
+               "isidentifier", "isalpha", "isalnum", "partition", "rpartition", "title", "capitalize", "casefold", "count",
+               "__iter__", "__lt__", "__le__", "__gt__", "__ge__", "__mul__", "__mod__", "encode", "removeprefix",
+               "removesuffix", "splitlines", "zfill", "center", "ljust", "rjust"):
+        locals()[_n] = _unsupported(_n)
+    del _n
+
+    def __deepcopy__(self, memo):
+        return self
+
+    def __copy__(self):
+        return self
+
+
+def wrap(s):
+    """re-symbolise: a string that contains placeholders -> Tok (exactly one placeholder) or PH; others unchanged"""
+    if isinstance(s, (Tok, PH)) or not isinstance(s, str):
+        return s
+    if not PHRE.search(s):
+        return s
+    if PHRE.fullmatch(s):
+        return REGISTRY[s]
+    return PH(s)
+
+
+resym = wrap
+
+
+def SymText(toks):
+    """a whitespace-separated text of the given tokens / words"""
+    toks = list(toks)
+    if not toks:
+        return ""
+    if len(toks) == 1 and isinstance(toks[0], Tok):
+        return toks[0]
+    return wrap(" ".join(toks))
+
+
 class Key(str):
     """a concrete word used as a key in hash containers that symbolic tokens are looked up in: hash 0 (as every token
     that is not a parenthesis/comma), equality deferred to the token"""
 
     def __eq__(self, o):
-        if isinstance(o, (Tok, SymText)):
+        if isinstance(o, (Tok, PH)):
             return o.__eq__(self)
         if isinstance(o, str):
             return _plain(self) == _plain(o)
@@ -215,8 +383,9 @@ class LinearDict(dict):
     for ordinary strings the answers are those of the dict"""
 
     def _find(self, key):
-        if type(key) is str and not PH.search(key):
+        if type(key) is str and not PHRE.search(key):
             return key if dict.__contains__(self, key) else None
+        key = wrap(key)
         for k in dict.keys(self):
             if k == key:
                 return k
@@ -236,99 +405,62 @@ class LinearDict(dict):
         return dict.__getitem__(self, k)
 
 
-class SymText(str):
-    """a whitespace-separated text of tokens (symbolic `Tok`s and ordinary words)"""
-
-    def __new__(cls, toks):
-        toks = list(toks)
-        t = str.__new__(cls, " ".join(toks))
-        t.toks = toks
-        return t
-
-    def split(self, sep=None, maxsplit=-1):
-        if sep is None and maxsplit == -1:
-            return list(self.toks)
-        if sep is None:
-            head = list(self.toks[:maxsplit])
-            rest = self.toks[maxsplit:]
-            return head + ([SymText(rest)] if rest else [])
-        if sep == "\n":
-            return [self]
-        raise Unsupported(f"SymText.split({sep!r}, {maxsplit})")
-
-    def find(self, sub, *a):
-        if sub == "#":
-            return -1                       # comments are outside the token model
-        raise Unsupported(f"SymText.find({sub!r})")
-
-    def strip(self, *a):
-        return self
-
-    lstrip = rstrip = strip
-
-    def __getitem__(self, i):
-        raise Unsupported("indexing a symbolic text")
-
-    def __eq__(self, o):
-        if isinstance(o, SymText):
-            if len(o.toks) != len(self.toks):
-                return False
-            r = True
-            for a, b in zip(self.toks, o.toks):
-                e = (a == b)
-                r = e if r is True else (r & e if not isinstance(e, bool) or not isinstance(r, bool) else (r and e))
-            return r
-        if isinstance(o, str):
-            ws = _plain(o).split()
-            if len(ws) != len(self.toks):
-                return False
-            r = True
-            for a, b in zip(self.toks, ws):
-                e = (a == b)
-                if e is False:
-                    return False
-                if e is True:
-                    continue
-                r = e if r is True else (r & e)
-            return r
-        return NotImplemented
-
-    def __ne__(self, o):
-        r = self.__eq__(o)
-        if r is NotImplemented:
-            return r
-        return (not r) if isinstance(r, bool) else ~r
-
-    def __hash__(self):
-        if len(self.toks) == 1:
-            return hash(self.toks[0])
-        return 0
-
-    def __bool__(self):
-        return bool(self.toks)
-
-    def __len__(self):
-        raise Unsupported("len() of a symbolic text")
-
-    def __deepcopy__(self, memo):
-        return self
+def one_token(x):
+    """the single token a symbolic text consists of, or None"""
+    if isinstance(x, Tok):
+        return x
+    if isinstance(x, PH):
+        ts = x.split()
+        if len(ts) == 1 and isinstance(ts[0], Tok):
+            return ts[0]
+    return None
 
 
-def resym(s):
-    """an ordinary string containing placeholders -> SymText of the registered tokens (other strings unchanged)"""
-    if isinstance(s, (SymText, Tok)) or not isinstance(s, str):
-        return s
-    if not PH.search(s):
-        return s
-    toks = []
-    for w in s.split():
-        if PH.fullmatch(w):
-            toks.append(REGISTRY[w])
-        elif PH.search(w):
-            raise Unsupported(f"placeholder glued to other characters: {w!r}")
-        else:
-            toks.append(w)
-    return SymText(toks)
+def to_float(x):
+    """float() / numpy.float64() of a symbolic text: forks over the vocabulary's numeric words"""
+    t = one_token(x)
+    if t is None:
+        raise ValueError(f"could not convert string to float: '{_plain(x)}'")
+    try:
+        return t.which(t.vocab.floats)
+    except KeyError:
+        raise ValueError(f"could not convert string to float: '{_plain(x)}'") from None
+
+
+def to_int(x, *a):
+    """int() of a symbolic text"""
+    t = one_token(x)
+    if t is None:
+        raise ValueError(f"invalid literal for int() with base 10: '{_plain(x)}'")
+    try:
+        return t.which(t.vocab.ints)
+    except KeyError:
+        raise ValueError(f"invalid literal for int() with base 10: '{_plain(x)}'") from None
+
+
+def map_words(real, name):
+    """a character-level function of the library (Op.as_identifier, Function.format_infix) on a symbolic text: a token that
+    is a word the function leaves alone stays the token; for the vocabulary's other words (`0.5`, `lock-range`, ...) the
+    path forks and the word itself is substituted; the real function then runs on the characters"""
+    def sub(m):
+        t = REGISTRY[m.group(0)]
+        dirty = {w: w for w in t.vocab.words + [t.vocab.other] if real(w) != w}
+        try:
+            return t.which(dirty)
+        except KeyError:
+            return m.group(0)
+    raw = PHRE.sub(sub, _plain(name))
+    if not PHRE.search(raw):
+        return real(raw)
+    # the placeholders left stand for words the function leaves alone: it treats them as the words they are
+    return wrap(real(raw))
+
+
+as_identifier = map_words
+
+
+def is_symbolic_text(x):
+    return isinstance(x, (Tok, PH))
 
 
 def spell(text, model, completion=True):
@@ -337,4 +469,4 @@ def spell(text, model, completion=True):
         t = REGISTRY[m.group(0)]
         k = model.eval(t.kind, model_completion=True).as_long()
         return t.vocab.spell(k)
-    return PH.sub(sub, _plain(text))
+    return PHRE.sub(sub, _plain(text))
